@@ -353,3 +353,75 @@ def rule_degen(ctx: Ctx, rep: Report, gates: list[ClassInfo],
             rep.ok(R, f'{c.name}.calc_params', f.path, f.lineno,
                    'no division by a sine / cosine of a recovered angle')
     rep.floor(R, fns, floor, 'calc_params methods examined')
+
+
+_POSITIVE_EIG = '''
+def demultiplex(U_1, U_2):
+    d2, V = eig(U_1 @ U_2.conj().T)
+    return UnitaryMatrix(V), d2
+'''
+
+
+def _eig_sites(fn: ast.AST) -> list[tuple[ast.Assign, str]]:
+    """`vals, V = eig(...)` (any eig that is not eigh) whose V is later
+    wrapped as a UnitaryMatrix in the same function."""
+    out = []
+    for s in ast.walk(fn):
+        if not (isinstance(s, ast.Assign) and isinstance(s.value, ast.Call)):
+            continue
+        name = norm(s.value.func).rsplit('.', 1)[-1]
+        if name != 'eig':
+            continue
+        tg = s.targets[0]
+        if not (isinstance(tg, ast.Tuple) and len(tg.elts) == 2
+                and isinstance(tg.elts[1], ast.Name)):
+            continue
+        v = tg.elts[1].id
+        for k in ast.walk(fn):
+            if isinstance(k, ast.Call) and norm(k.func) == 'UnitaryMatrix' \
+                    and k.args and isinstance(k.args[0], ast.Name) and (
+                        k.args[0].id == v):
+                out.append((s, v))
+                break
+    return out
+
+
+def rule_eigunit(ctx: Ctx, rep: Report, prefixes: tuple[str, ...]) -> None:
+    """EIGUNIT: the eigenvector matrix of `eig()` is unitary only when all
+    eigenvalues differ; for a repeated eigenvalue the returned vectors span
+    the eigenspace but are not orthogonal.  Code that needs a unitary
+    diagonaliser of a normal matrix uses the complex Schur form (as QSDPass
+    does) or `eigh`; wrapping `eig`'s vectors in a UnitaryMatrix fails on
+    every degenerate input (permutations, tensor products, controlled
+    gates)."""
+    R = 'EIGUNIT'
+    if len(_eig_sites(ast.parse(_POSITIVE_EIG))) != 1:
+        from ..source import AnalysisError
+        raise AnalysisError('EIGUNIT no longer matches its positive example')
+    n = 0
+    dec = 0
+    for f in ctx.index.all_functions():
+        if not f.path.startswith(prefixes):
+            continue
+        n += 1
+        uses = [c for c in ast.walk(f.node) if isinstance(c, ast.Call)
+                and norm(c.func).rsplit('.', 1)[-1] in ('eig', 'schur', 'eigh')]
+        if not uses:
+            continue
+        dec += 1
+        rep.count()
+        rep.seen(f.qualname)
+        bad = _eig_sites(f.node)
+        rep.check(
+            not bad, R,
+            (f.cls.name + '.' if f.cls is not None else '') + f.name,
+            f.path, bad[0][0].lineno if bad else f.lineno,
+            'no eig() eigenvector matrix is used as a unitary',
+            (f'{f.qualname} wraps `{bad[0][1]}`, the eigenvectors returned '
+             f'by `{norm(bad[0][0].value)[:50]}`, as a UnitaryMatrix: they '
+             'are not orthogonal when an eigenvalue repeats, so every '
+             'degenerate input raises "Input failed unitary condition"'
+             ) if bad else None,
+            key='eig-vectors',
+        )
+    rep.floor(R, dec, 2, 'functions that diagonalise a matrix')
